@@ -46,7 +46,7 @@ def reg(pid, units, explanation, assumptions=(), level_text='', level_note='', t
 NOT_BUILT = 'planned unit not built (DESIGN.md section 8): no contract on this code is discharged yet, so the property is not claimed'
 NOT_APPLICABLE = {
     'C02': NOT_BUILT, 'C08': NOT_BUILT, 
-    'C13': NOT_BUILT, 'C15': NOT_BUILT,
+    'C15': NOT_BUILT,
     'C03': 'partition refinement is written as closure chains over BTreeMap<StateID, BTreeMap<CharClassID, Vec<StateID>>>; Verus cannot ingest it without a rewrite that would be a model, and the Kani stand-in did not terminate at 3 states x 2 classes (25 min, 5.7 GB)',
     'C14': 'concurrency: Kani has no thread support and Verus would need its own permission types in place of RwLock/LazyLock/Arc (a rewrite, i.e. a model)',
     'C16': 'behaviour lives in the expansion of serde derives and in serde_json; there is no function of scnr to put a contract on',
@@ -94,3 +94,11 @@ reg('C17', ['u_min'],
     ['automata have at most u32::MAX states (width of StateID; not reachable in addressable memory)', 'derived Ord on StateID is the integer order (BTreeSet key model)',
      'that the rest of the minimizer is correct for large automata is C03 (not decided)'],
     technique='Verus function contract on find_group + self-generated cast-losslessness obligations')
+
+reg('C13', ['u_cache'],
+    'ScannerCache::get relative to an abstract compile(modes): a hit and a miss both return exactly compile(modes); a failing build returns the error and leaves the cache unchanged (insertion only after success); entries are never overwritten; the key types still derive PartialEq/Eq/Hash field-wise (checked mechanically: derives present, no hand-written impl)',
+    ['compile is a deterministic function of the mode list (the build layer is not under contract)',
+     'TRUSTED replacements: `modes.try_into()` -> verif_compile, the unsafe `(*Arc::as_ptr(scanner)).clone()` -> verif_clone_arc_target (returns a copy of the pointee)',
+     'derived Hash/Eq/Clone of ScannerMode, Pattern, Lookahead are field-wise and obey vstd key model; Vec<T>: Borrow<[T]> lookups compare element-wise (axiom_slice_key)',
+     'ScannerBuilder::build / SimpleScannerBuilder::build (lock + get) are not under contract'],
+    technique='Verus function contract + data-structure invariant on the cache map; derive-presence check')
